@@ -1,6 +1,10 @@
-import os, re
+import os, re, sys
 import runner as R
 from props import *
+sys.path.insert(0, os.path.dirname(os.path.dirname(os.path.abspath(__file__))))
+import kernel_part
+
+LEAN_MODULES = ['C07', 'C07k']
 
 MANIFEST = dict(
     text="Proved in Lean over the single-source machine semantics extended with faults (every invocation of user code: ok | panic(error) | panic(value) | error return; "
@@ -12,6 +16,7 @@ MANIFEST = dict(
          "a panicking subscribe function = its delivered prefix, then Error(observable(p)), then Unsubscribe (subscribe_fn_panic); an error return is forwarded unwrapped (error_return); Unsubscribe runs every finalizer and re-raises exactly the joined panics. "
          "F: every go statement of the regenerated catalogue that calls user code is recovered (no exception since fix 8bf73dd); subscription.Add unlocks by defer (decide over regenerated tables). K: fault injection at every callback position x invocation index <= 3 x {panic(error), panic(value), error return}, "
          "singly and in pairs, for 23 operators x variants x scripts x {sync, hot}, all result fields equal on both sides, plus child-process runs for library goroutines. "
+         "Kernel part (C07k): in the concurrent kernel model running the subscriber programs regenerated from subscriber.go (decided equal on every run), for every mode, threads, scripts and schedule, a terminal notification is handed to the drop hook only when the subscriber is already closed (kernel_terminal_refused_only_when_closed) - never because the producer lock is busy; K: log predicate terminal-lost on the real subscriber under concurrent producers. "
          "Partial: five deviation classes of the pinned tree are witness theorems + known findings (final observer stays open after its onNext panics; Error/Complete-position callbacks; (Future, formerly listed, is repaired by 8bf73dd + 34cf01a and is now the theorem future_factory_panic); "
          "teardown panics re-raised into the producer / dropped; subscriberImpl.NextWithContext without deferred unlock). Not covered: Share/subject scenarios (iv, subject half of v), multi-source operators.",
     technique="Lean 4 proof (simulation of the fault interpreter by runOp of an injected machine, invariants over the interpreter, decide over the regenerated go-statement table) + differential correspondence with fault injection",
@@ -135,8 +140,11 @@ def check(ctx):
     go = R.replay_cases(ctx, GO_CASES)
     R.compare(ctx, go, proj_all, 'C07 user code on library goroutines (child process)', oracle=oracle_fault, nontrivial=nontrivial_fault)
     ctx.dist['go_statements'] = len(go_rows())
+    # the subscriber itself (concurrent kernel): a terminal is refused only by a closed subscriber (C07k) — the log
+    # predicate terminal-lost on the real subscriber under concurrent producers, all three modes
+    kp = kernel_part.kernel_part(ctx, 'C07')
     return dict(
-        rule='kind=fault: 23 operators (14 with Next-position callbacks, Tap/ThrowIfEmpty/Catch/TapOnSubscribe, 5 without callbacks) x variants x named callbacks x '
+        rule=kp['rule'] + ' [C07 reads the predicate terminal-lost: a terminal call that returned on a subscriber nobody unsubscribed has begun its callback]; kind=fault: 23 operators (14 with Next-position callbacks, Tap/ThrowIfEmpty/Catch/TapOnSubscribe, 5 without callbacks) x variants x named callbacks x '
              'scripts (6 fixed incl. empty / error / never-ending / illegal suffix + seeded) x {sync, hot} x {unsafe, safe} source x fault plans: none, every single fault '
              '(operator callback invocation 0..3, source subscribe function after 0..3 / all notifications, source teardown, final observer onNext 0..3 / onError 0..1 / onComplete; '
              'panic(error), panic(non-error value), error return for MapErr) and pairs (quick: 24 sampled per configuration; thorough: all); every subset of panicking finalizers among <= 4 (5); '
@@ -146,4 +154,4 @@ def check(ctx):
         assumptions=['a join of exactly one error (xerrors.Join) is identified with that error on both sides',
                      'the child-process scenarios wait 2 s for the library goroutine; a crash is recognised by the Go runtime\'s "panic:" banner and a non-zero exit status',
                      'usable=0 is reported when a case does not finish within 3 s (a lock left held); never a pass'],
-        extra={'distribution': ctx.dist}, search=search)
+        extra={'distribution': ctx.dist}, search=combine_search(kp['search'], search))
